@@ -416,4 +416,72 @@ func c10GenGroup(c *hmain.Ctx) {
 			gen("group-meta-strict", 2)
 		}
 	}
+
+	// ---- mode 2: a discarding action in front of an output that acknowledges late ------------------------------
+	// fetches of 2..6 records of one partition, about every second record is discarded by the action (kind 4), often the
+	// last ones of the fetch (a tail of discarded records behind records that still wait for the output); commit ticks
+	// between the fetches, restarts after Stop and after a refused final commit: kgo's marks and the offsets the broker
+	// stores must belong to records the output acknowledged (no head of a record that was only discarded)
+	genDiscard := func() {
+		b := &c10GBuild{topics: []string{"a", "logs"}, nps: []int{r.Range(1, 3), r.Range(1, 2)}}
+		if r.Chance(1, 3) {
+			b.topics, b.nps = b.topics[:1], b.nps[:1]
+		}
+		b.cfg = [11]int{1, r.Intn(5), 0, []int{1, 2, 3, 256}[r.Intn(4)], []int{1, 2, 5}[r.Intn(3)], r.Intn(2), []int{0, 0, 1, 2}[r.Intn(4)], 2, 0, 0, 0}
+		type plog struct {
+			ti, part int
+			off, e   int64
+		}
+		var logs []*plog
+		for ti := range b.topics {
+			for p := 0; p < b.nps[ti]; p++ {
+				logs = append(logs, &plog{ti: ti, part: p, off: int64(r.Intn(5)), e: int64(r.Intn(3))})
+			}
+		}
+		total, discards := 0, 0
+		fetch := func() hx.Sx {
+			l := logs[r.Intn(len(logs))]
+			var recs []hx.Sx
+			n := r.Range(2, 6)
+			tail := r.Intn(3) // so many records at the end of the fetch are discarded
+			for k := 0; k < n; k++ {
+				kind := 0
+				if k >= n-tail || r.Chance(1, 3) {
+					kind = 4
+					discards++
+				}
+				recs = append(recs, c10Rec3(l.off, l.e, kind))
+				total++
+				l.off += int64(1 + r.Intn(2))
+				if r.Chance(1, 6) && l.e < 65535 {
+					l.e++
+				}
+			}
+			return c10GrFetch(l.ti, l.part, recs...)
+		}
+		for k := r.Intn(3); k > 0; k-- {
+			b.init = append(b.init, fetch())
+		}
+		ticks := 0
+		for ph := r.Range(1, 3); ph > 0; ph-- {
+			for k := r.Range(1, 5); k > 0 && total < 40; k-- {
+				if r.Chance(3, 5) {
+					b.produce(fetch())
+				} else {
+					b.tick()
+					ticks++
+				}
+			}
+			e := 0
+			if r.Chance(1, 4) {
+				e = 1
+			}
+			b.end(e)
+		}
+		c.W.Count("group_discard_records=" + strconv.Itoa(min(discards, 8)/4*4) + "+")
+		do("group-discard", b, discards > 0 && total > discards)
+	}
+	for i := 0; i < 40*c.Scale; i++ {
+		genDiscard()
+	}
 }
